@@ -24,6 +24,21 @@ var c09Nasty = []string{
 	`{"a":  1}`, `["x",  "y"]`, ` leading`, `trailing `, `"`, `\"`, `\\":  `, `: `, `"":  `, "line1\n\"k\":  v",
 }
 
+// c09NastyText: a short text put together from the characters JSON's own syntax is made of, so that whatever a
+// clean-up of the encoder's bytes looks for (a separator, a key, a brace, a run of spaces) also occurs
+// inside, at the start and at the end of a string value
+func c09NastyText(r *Rand) string {
+	if r.Chance(1, 3) {
+		return Pick(r, c09Nasty)
+	}
+	toks := []string{`"`, `,`, `:`, ` `, `  `, `{`, `}`, `[`, `]`, `\`, `a`, `k`, "\n", "\t", `, `, `: `, `", "`, `":`}
+	var b strings.Builder
+	for i := 0; i < 1+r.Intn(5); i++ {
+		b.WriteString(Pick(r, toks))
+	}
+	return b.String()
+}
+
 func c09Models(rnd *Rand, tier string) []struct {
 	name string
 	mod  *sysl.Module
@@ -45,12 +60,12 @@ func c09Models(rnd *Rand, tier string) []struct {
 		for ai := range d.Apps {
 			a := &d.Apps[ai]
 			if r.Chance(2, 3) {
-				a.Attrs.KV = append(a.Attrs.KV, dKV{K: fmt.Sprintf("n%d", ai), V: dAttrVal{S: Pick(r, c09Nasty)}})
+				a.Attrs.KV = append(a.Attrs.KV, dKV{K: fmt.Sprintf("n%d", ai), V: dAttrVal{S: c09NastyText(r)}})
 			}
 			if r.Chance(1, 2) {
 				v := dAttrVal{Arr: true}
 				for k := 0; k < 1+r.Intn(3); k++ {
-					v.A = append(v.A, dAttrVal{S: Pick(r, c09Nasty)})
+					v.A = append(v.A, dAttrVal{S: c09NastyText(r)})
 				}
 				a.Attrs.KV = append(a.Attrs.KV, dKV{K: fmt.Sprintf("arr%d", ai), V: v})
 			}
